@@ -164,7 +164,10 @@ def run_all(ctx, cases, want):
             if s == "P":
                 # a panic is API misuse the statements do not cover (reading an atom API on a pair,
                 # remove_ghost_pair below zero, new_small_number above 2^26-1, heap limit > u32::MAX)
-                if e != "P" and not tok.startswith("rp,"):
+                # (once the run is no longer aligned with the reference accounting - after an F2 step the
+                # reference's node list differs - only the Coq arena model, compared by the correspondence
+                # above, can say whether this step is misuse)
+                if use_ref and e != "P" and not tok.startswith("rp,"):
                     ctx.violation("implementation panicked at step %d (%s); the reference does not" % (k, tok), rep)
                 ctx.histogram("result", "panic")
                 break
